@@ -872,6 +872,23 @@ def check_brms(case, ctx):
                     'brms:full-band:' + ('nonsquare' if ny != nx else 'square'),
                     'full-band brms^2 = %.12g, window-weighted mean square %.12g, outermost-sample weight %.3g (shape %s dx %g window %s)'
                     % (val['full'], full_target, hi_b - lo_b, shape, dx, win))
+    if route != 'method':
+        # a PSD that is not finite at samples outside the requested band (a model a/f^b evaluated on the map's own frequency grid is +inf at
+        # f = 0; a blanked DC bin is NaN): a band that excludes those samples integrates exactly as before
+        bad = {0: np.inf, 1: np.nan, 2: -np.inf}[case['seed'] % 3]
+        P_bad = np.array(Pin, dtype=np.float64, copy=True)
+        P_bad[R == 0] = bad
+        a_pos = a if a > 0 else b
+        P_bad_in = U.relayout(P_bad, playout)
+        for fl, fh in ((a_pos, b if b > a_pos else c), (b, None if hi is None else hi)):
+            if not (fl > 0) or (fh is not None and fh <= fl):
+                continue
+            with numpy_generation(api):
+                v_clean = ctx.call(bandlimited_rms, R_in, P_in, flow=fl, fhigh=fh)
+                v_bad = ctx.call(bandlimited_rms, R_in, P_bad_in, flow=fl, fhigh=fh)
+            ctx.label('non-finite-psd-outside-the-band')
+            ctx.require(bool(np.isfinite(v_bad)) and abs(float(v_bad) ** 2 - float(v_clean) ** 2) <= tol, 'brms:non-finite-sample-outside-band',
+                        'band [%.6g, %s] excludes f = 0, where the PSD is %r: brms %r, with a finite DC sample %r (%s)' % (fl, fh, bad, v_bad, v_clean, shape))
     if route == 'method' and case.get('edit'):
         # the object's data edited in place after its band-limited RMS was taken: the next values follow the data it holds now
         ctx.nt(True)
